@@ -12,12 +12,21 @@ def ident(n):
     return {"k": "id", "n": n, "sp": n}
 
 
+def _signed(d):
+    """a signed numeric literal is two tokens (sign, magnitude): blanks may separate them, the literal starts at the sign"""
+    neg = d["sp"].startswith(("-", "+"))
+    d["negsp"] = neg
+    d["sg"] = d["sp"][0] if neg else ""
+    d["mag"] = d["sp"][1:] if neg else d["sp"]
+    return d
+
+
 def lit_int(v, sp=None):
-    return {"k": "int", "val": str(v), "sp": sp or str(v), "negsp": (sp or str(v)).startswith(("-", "+"))}
+    return _signed({"k": "int", "val": str(v), "sp": sp or str(v)})
 
 
 def lit_float(sp):
-    return {"k": "float", "val": sp, "sp": sp, "negsp": sp.startswith(("-", "+"))}
+    return _signed({"k": "float", "val": sp, "sp": sp})
 
 
 def lit_str(b, sp=None):
